@@ -1141,7 +1141,8 @@ PROP_THEOREMS = {
             "C02_level0_every_schedule_returns_partial"],
     "C10": ["C10_length_tables_inverse", "C10_distance_tables_inverse", "C10_level0_output_is_a_valid_stream_partial"],
     "C11": ["C11_window_limit_routing", "C11_declared_window"],
-    "C12": ["C12_sync_marker_is_empty_stored_block", "C12_level0_flush_point_decodable_partial"],
+    "C12": ["C12_sync_marker_is_empty_stored_block", "C12_level0_flush_point_decodable_partial",
+            "C12_level0_room_means_nothing_pending_partial", "C12_level0_flush_with_room_is_a_flush_point_partial"],
     "C14": ["C14_empty_output_refused", "C14_done_is_stable", "C14_nonfinish_after_finish_is_error",
             "C14_level0_stream_end_means_lossless_partial", "C14_level0_deflate_output_inflates_back_partial",
             "C14_level0_every_deflate_schedule_never_panics_partial",
